@@ -103,6 +103,8 @@ class Ctx:
         for d, n in extra_q:
             cmd += ["-Q", d, n]
         cmd.append(vfile)
+        # big case files: lift the native stack limit for coqc (the thorough tier evaluates tens of thousands of cases)
+        cmd = ["sh", "-c", 'ulimit -s unlimited 2>/dev/null || ulimit -s 1000000 2>/dev/null; exec "$@"', "coqc-wrapper"] + cmd
         return sh(cmd, cwd=self.work, timeout=timeout)
 
     def audit(self, module, theorems):
